@@ -83,6 +83,9 @@ pub struct St {
     /// the thread whose last step was `yield_now` (loom semantics, `Opts::yield_sem`): it is not
     /// scheduled at the next decision if another thread can run
     yielded: Option<u8>,
+    /// bit t: thread t has reached its first scheduling point (only tracked with `Opts::yield_sem`:
+    /// scheduling a freshly spawned thread takes it to its first operation without performing it)
+    arrived: u8,
     /// relaxed probe stores seen so far in the replay: (location, value, thread, own clock component)
     probes: Vec<(u8, u8, u8, u8)>,
     ck: Option<Box<(Clocks, Clocks)>>,
@@ -235,6 +238,7 @@ impl<'a> Sc<'a> {
             panicked: false,
             logpos: 0,
             yielded: None,
+            arrived: if self.opts.yield_sem { 1 } else { 0xff },
             probes: vec![],
             ck: if self.opts.clocks { Some(Box::new((mk(), mk()))) } else { None },
         }
@@ -303,6 +307,12 @@ impl<'a> Sc<'a> {
     /// All steps thread `t` can take in `st`. `races` accumulates (min, max).
     fn steps(&self, st: &St, t: usize, out: &mut Vec<Step>, races: &mut (bool, bool)) {
         if !st.started[t] || st.exited[t] || st.panicked {
+            return;
+        }
+        if st.arrived & (1 << t) == 0 {
+            let mut s = st.clone();
+            s.arrived |= 1 << t;
+            out.push(Step::Hidden(s));
             return;
         }
         let ops = &self.prog.threads[t];
